@@ -32,11 +32,33 @@ type ins struct {
 const alias = "vhauto"
 
 func main() {
-	if len(os.Args) != 2 {
-		fmt.Fprintln(os.Stderr, "usage: autoyield <root>")
+	if len(os.Args) != 2 && len(os.Args) != 3 {
+		fmt.Fprintln(os.Stderr, "usage: autoyield <root> [file with race-directed sites, one rel/path.go:line per line]")
 		os.Exit(2)
 	}
 	root := os.Args[1]
+	directed = map[string]map[int]bool{}
+	if len(os.Args) == 3 {
+		b, err := os.ReadFile(os.Args[2])
+		if err != nil {
+			fmt.Fprintln(os.Stderr, "autoyield:", err)
+			os.Exit(2)
+		}
+		for _, l := range strings.Fields(string(b)) {
+			i := strings.LastIndex(l, ":")
+			if i < 0 {
+				continue
+			}
+			var line int
+			fmt.Sscanf(l[i+1:], "%d", &line)
+			if line > 0 {
+				if directed[l[:i]] == nil {
+					directed[l[:i]] = map[int]bool{}
+				}
+				directed[l[:i]][line] = true
+			}
+		}
+	}
 	mod := modulePath(filepath.Join(root, "go.mod"))
 	if mod == "" {
 		fmt.Fprintln(os.Stderr, "autoyield: no module path in go.mod")
@@ -106,7 +128,11 @@ func main() {
 		fmt.Fprintln(os.Stderr, "autoyield:", err)
 		os.Exit(1)
 	}
-	fmt.Printf("autoyield: %d sites in %d files\n", sites, files)
+	if len(directed) > 0 {
+		fmt.Printf("autoyield: %d sites in %d files, %d of them race-directed\n", sites, files, directedPlaced)
+	} else {
+		fmt.Printf("autoyield: %d sites in %d files\n", sites, files)
+	}
 }
 
 func modulePath(gomod string) string {
@@ -124,6 +150,12 @@ func modulePath(gomod string) string {
 }
 
 var goCallees map[string]map[string]bool
+
+// directed: statements the race detector named as one side of a data race (file -> lines). A
+// forced yield ("auto!:") goes in front of each, also inside sync.Once regions, so that the
+// simulator can put the other access in between.
+var directed map[string]map[int]bool
+var directedPlaced int
 
 type rewriter struct {
 	fset *token.FileSet
@@ -153,8 +185,10 @@ func (r *rewriter) before(s ast.Stmt) { r.add(s.Pos(), r.yield(s.Pos())+"; ") }
 func (r *rewriter) after(s ast.Stmt)  { r.add(s.End(), "; "+r.yield(s.Pos())) }
 
 const (
-	quietOn  = alias + `.Yield("auto:+")`
-	quietOff = alias + `.Yield("auto:-")`
+	quietOn   = alias + `.Yield("auto:+")`
+	quietOff  = alias + `.Yield("auto:-")`
+	quietOnO  = alias + `.Yield("auto:o+")`
+	quietOffO = alias + `.Yield("auto:o-")`
 )
 
 func methodName(e ast.Expr) (string, *ast.CallExpr) {
@@ -272,7 +306,7 @@ func (r *rewriter) stmt(s ast.Stmt) {
 			r.after(s)
 		case isSel && name == "Do" && len(call.Args) == 1:
 			if _, ok := call.Args[0].(*ast.FuncLit); ok {
-				r.add(s.Pos(), "func() { "+quietOn+"; defer "+quietOff+"; ")
+				r.add(s.Pos(), "func() { "+quietOnO+"; defer "+quietOffO+"; ")
 				r.add(s.End(), " }()")
 			}
 		case isSel && name == "Wait" && len(call.Args) == 0:
@@ -380,6 +414,50 @@ func rewrite(path, rel, mod string) (int, error) {
 		}
 		return true
 	})
+	if lines := directed[r.rel]; len(lines) > 0 {
+		// statements in list context, innermost first: the smallest one that starts at or spans the line
+		type cand struct {
+			s    ast.Stmt
+			size int
+		}
+		best := map[int]cand{}
+		consider := func(l []ast.Stmt) {
+			for _, st := range l {
+				if _, ok := st.(*ast.LabeledStmt); ok {
+					continue
+				}
+				from, to := fset.Position(st.Pos()).Line, fset.Position(st.End()).Line
+				for line := range lines {
+					if line < from || line > to {
+						continue
+					}
+					size := to - from
+					if from == line {
+						size = -1 // a statement starting on the line wins
+					}
+					if b, ok := best[line]; !ok || size < b.size {
+						best[line] = cand{st, size}
+					}
+				}
+			}
+		}
+		ast.Inspect(f, func(n ast.Node) bool {
+			switch n := n.(type) {
+			case *ast.BlockStmt:
+				consider(n.List)
+			case *ast.CaseClause:
+				consider(n.Body)
+			case *ast.CommClause:
+				consider(n.Body)
+			}
+			return true
+		})
+		for line, b := range best {
+			r.add(b.s.Pos(), fmt.Sprintf("%s.Yield(\"auto!:%s:%d\"); ", alias, r.rel, line))
+			r.n++
+			directedPlaced++
+		}
+	}
 	if len(r.list) == 0 {
 		return 0, nil
 	}
